@@ -356,6 +356,9 @@ func genUnknownFields(t *rapid.T, b *docBuilder, e *Exp, label string) {
 	n := rapid.SampledFrom([]int{0, 0, 1, 2}).Draw(t, label+"n")
 	for i := 0; i < n; i++ {
 		name := fmt.Sprintf("X-%s-%d", genFromAlphabet(t, label+"name", "ABCabc", 1, 5), i)
+		if i == 0 && rapid.IntRange(0, 3).Draw(t, label+"goName") == 0 {
+			name = rapid.SampledFrom([]string{"Epoch", "Revision", "Values", "Order", "Relations", "ABI", "OS", "CPU", "Hash", "Algorithm", "ByHash"}).Draw(t, label+"goNameV")
+		}
 		val := genLineText(t, label+"val", false)
 		b.scalar(name, val)
 		e.Unknown[name] = val
